@@ -162,6 +162,7 @@ func VerifC05Synchronize() {
 	round := 0
 	served := 0
 	consumerDone := make(chan bool)
+	abortedOnce := false
 	go func() {
 		for req := range bm.requests {
 			log = append(log, requestRec{req.hash, req.height, round})
@@ -177,7 +178,12 @@ func VerifC05Synchronize() {
 			cur, _ := hs.Hash(ctx, req.height)
 			switch {
 			case cur == nil || !cur.Equal(&req.hash):
-				// the block left the best chain: a source can not deliver it; hold until aborted
+				// the block left the best chain: a source can not deliver it; hold until aborted.
+				// The only reorganisation of a run happens before the first abort, so a round
+				// that follows an abort walks back on the new best chain: a request for a block
+				// off the best chain after an abort is the old round going on with its stale list
+				verifAssert(!abortedOnce, "block-off-the-best-chain-requested-after-an-abort")
+				abortedOnce = true
 				<-req.abort
 				req.complete <- BlockAborted
 				verifReach("aborted-orphan")
